@@ -82,7 +82,14 @@ class ServiceAnalysis:
         self.log = self.client.log
 
     def loops(self) -> List[ast.AST]:
-        return [n for n in ast.walk(self.f.node) if isinstance(n, (ast.For, ast.While))]
+        """the loops the analysis entered, in source order of the analysed function first, then those of inlined helpers"""
+        own = [n for n in ast.walk(self.f.node) if isinstance(n, (ast.For, ast.While))]
+        seen = {id(n) for n in own}
+        for _cl, node, _st in self.client.loops:
+            if id(node) not in seen:
+                seen.add(id(node))
+                own.append(node)
+        return own
 
     def sends(self):
         return [(e, s) for e, s in self.log if e.kind == 'send']
